@@ -163,6 +163,18 @@ Theorem C06_core_diagnosed_iff_some_argument_not_member_partial :
 Proof. exact core_diagnosed_iff_nonmember_partial. Qed.
 Print Assumptions C06_core_diagnosed_iff_some_argument_not_member_partial.
 
+(* before repo_fixes/C06-empty-collection-lower-bound: an unused `*rest: TA` contributed the lower
+   bound Any, the solver adopted it, and every check against TA passed.  With the bounds of
+   m(g_float_float) for  def m(cb: Callable[[TA], Any], *rest: TA)  (TA bound=A):
+   upper float (callback), upper A (declared), [lower Any,] upper A — *)
+Theorem C06_unused_star_args_refuted_before_fix :
+  resolve atom_ops [UpperBound (SU [A_float]); UpperBound (SU [A_clsA]); LowerBound SAny; UpperBound (SU [A_clsA])] = Sol SAny /\
+  acc atom_ops (SU [A_float]) SAny = true /\
+  resolve atom_ops [UpperBound (SU [A_float]); UpperBound (SU [A_clsA]); UpperBound (SU [A_clsA])] = Sol (SU [A_float; A_clsA]) /\
+  acc atom_ops (SU [A_float]) (SU [A_float; A_clsA]) = false.
+Proof. vm_compute. repeat split. Qed.
+Print Assumptions C06_unused_star_args_refuted_before_fix.
+
 (* non-trivial inputs:  def f(p0: T, /, p1: Callable[[T], U], *va: T, k: int = 0) -> T   (T, U unbounded) *)
 Example C06_examples :
   let P n k d := mkParam n k d in
